@@ -130,7 +130,8 @@ def check(ctx, case):
             if f.ret == ("s", "uint") and not (0 <= want < (1 << 32)):
                 ctx.discard("result-outside-u32")
                 continue
-            wargs = [args[n] for _, n in f.params]
+            # i32 parameters take the 32-bit pattern: unsigned values above 2^31-1 are passed as their signed twin
+            wargs = [(args[n] - (1 << 32)) if (t == ("s", "uint") and args[n] >= (1 << 31)) else args[n] for t, n in f.params]
             kind, got = inst.call(f.name, wargs)
             inp = "%s(%s)" % (f.name, ", ".join("%s=%r" % (n, args[n]) for _, n in f.params))
             if kind == "missing":
